@@ -29,6 +29,15 @@ CLAIMED = {
             '(from, to, constant sign, strictness), with the normalising division, the difference-form and integrality guards; sibling agreement of bounds/distance/equates/lb/ub; '
             'bounds(c*x) respects the sign of c. The sign conventions of distance(lin,lin)/equates are not decided (DESIGN 4 C12).',
             'Trusts the meaning of new_distance(from,to,d) as to - from <= d (checked by C10.R2).', 'DESIGN.md 4 C12'),
+    'C13': ('clause-schema extraction of the reified constructors compared with the Tseitin specification; freshness of the defined literal; decision table of the root shortcuts; cache-key dataflow',
+            'Static, exhaustive over the finite specification: the set of clause schemas posted by new_eq/new_conj/new_disj/new_at_most_one (pairwise and product grid)/new_exct_one equals the '
+            'Tseitin definition; the defined literal is fresh; the 9 root-value cells of new_eq; cache tag/key/lookup/store discipline; routing from core. The root-true arms of the cardinality '
+            'constructs and the grid arithmetic are not decided.',
+            'Trusts the Tseitin specification written in orv/rules/C13.py; clause order and local names are irrelevant (roles are found structurally).', 'DESIGN.md 4 C13'),
+    'C14': ('clause-schema and decision-table extraction of ov_theory; who-may-call rule for the waived exactly-one with delegation check along the call path',
+            'Static: new_var binds a fresh literal per value and posts the exactly-one unit clause exactly when asked; new_eq posts exactly the clauses that make the literal mean '
+            '"same value" and handles identity / symmetry / disjoint domains / caching; allows/value tables; the only waiver (solver::new_enum) creates an exclusive, value-complete var_flaw.',
+            'Rests on C13 (exactly-one) and C03.R1 (flaw expansion posts at-least-one and pairwise exclusion).', 'DESIGN.md 4 C14'),
 }
 
 NOT_YET = {}
